@@ -55,6 +55,13 @@ fn cstr_readback(b: &BinArchive, content: &Value) -> Result<(), String> {
 
 fn parse_and_compare(bytes: &[u8], content: &Value, reparsed: &Value) -> Result<(), String> {
     let e = content["endian"].as_str().unwrap();
+    // a parse result must depend on the image alone: first let the parser fail on damaged copies of the same image
+    // (cut inside the text section / inside the tables), then parse the real one on the same thread
+    for cut in [bytes.len().saturating_sub(1), bytes.len().saturating_sub(3), bytes.len() / 2 + 17] {
+        if cut < bytes.len() {
+            let _ = catch(|| BinArchive::from_bytes(&bytes[..cut], endian_of(&content["endian"])).map(|_| ()));
+        }
+    }
     let b = BinArchive::from_bytes(bytes, endian_of(&content["endian"])).map_err(|x| format!("from_bytes: {}", x))?;
     masked_equal(&project(&b, e), reparsed)?;
     cstr_readback(&b, content)
